@@ -17,6 +17,10 @@ def _ttl(kind, expire, seed, tid):
     return memodriver.run_ttl(kind, expire, seed, tid)
 
 
+def _names(kind, seed, tid):
+    return memodriver.run_names(kind, seed, tid)
+
+
 def _stamp(seed, tid):
     return memodriver.run_stampede(seed, tid)
 
@@ -25,13 +29,22 @@ def run(prop, tier, seed):
     out = Outcome('C16', tier, seed)
     rng = random.Random(seed * 217645177 + 16)
     q = '_q' if tier == 'quick' else ''
-    res = run_tlc('MCMemo.tla', 'MCMemo_NoDev%s.cfg' % q, workers=1, timeout=900)
-    if res.error or res.violation:
-        raise MachineryError('intended key function violates NoSharedEntry: %s %s' % (res.error, res.violation))
-    out.add_tlc('MCMemo_NoDev%s.cfg' % q, res, 'intended (injective) key: NoSharedEntry over all ordered pairs of signatures, arity <= %d, 4 values, kwargs subsets of {a,b}, typed x ignore sets' % (2 if q else 3))
+    models = [('_q', 'arity <= 1, 4 values')] if tier == 'quick' else [('_q', 'arity <= 1, 4 values'), ('_m', 'arity <= 2, 4 values'), ('', 'arity <= 3, 3 values')]
+    for sfx, what in models:
+        res = run_tlc('MCMemo.tla', 'MCMemo_NoDev%s.cfg' % sfx, workers=1, timeout=1800)
+        if res.error or res.violation:
+            raise MachineryError('intended key function violates NoSharedEntry: %s %s' % (res.error, res.violation))
+        out.add_tlc('MCMemo_NoDev%s.cfg' % sfx, res, 'intended (injective) key: NoSharedEntry, SameCallSameKey (keywords in either written order), DistinctFunctionsDistinctNames over all ordered pairs of signatures, %s, keyword subsets of {a,b}, typed x ignore sets' % what)
     res = run_tlc('MCMemo.tla', 'MCMemo_Dev_q.cfg', workers=1, timeout=300)
     if res.violation is None and 'is equal to FALSE' not in res.out:
         raise MachineryError('the released args_to_key (deviation D_none_separator) was expected to violate NoSharedEntry in the model')
+    rej = []
+    for cfg, inv in (('MCMemo_DevOrder.cfg', 'types of keyword values taken in the order written'), ('MCMemo_DevName.cfg', 'entry name from the short function name')):
+        r2 = run_tlc('MCMemo.tla', cfg, workers=1, timeout=300)
+        if r2.violation is None and 'is equal to FALSE' not in r2.out:
+            raise MachineryError('%s was expected to violate its invariant' % cfg)
+        rej.append('%s (%s) rejected by the model' % (cfg, inv))
+    out.notes['design_deviations_rejected'] = rej
     out.notes['design_reproduction_of_known_finding'] = 'MCMemo_Dev_q.cfg violates NoSharedEntry (f(1, None, \'a\') vs f(1, a=None) ...)'
     sigs = memodriver.all_sigs(2 if tier == 'quick' else 3)
     jobs = []
@@ -46,8 +59,11 @@ def run(prop, tier, seed):
                 for _ in range(npairs):
                     s1 = rng.choice(sigs)
                     r = rng.random()
-                    if r < 0.25:
+                    if r < 0.15:
                         s2 = s1
+                    elif r < 0.25:
+                        # the same call with the keywords written in the other order
+                        s2 = {'pos': list(s1['pos']), 'kw': list(reversed(s1['kw']))}
                     elif r < 0.5:
                         # the confusable shapes: positional tail <-> keyword
                         s2 = rng.choice(sigs)
@@ -60,7 +76,9 @@ def run(prop, tier, seed):
                         s2 = rng.choice(sigs)
                     pairs.append((s1, s2))
                 # the confusable shapes of the released key format, always included
-                pairs += [({'pos': [], 'kw': [['a', 'i:1']]}, {'pos': ['N', 's:a', 'i:1'], 'kw': []}),
+                pairs += [({'pos': ['i:1'], 'kw': [['a', 'i:1'], ['b', 'f:1']]}, {'pos': ['i:1'], 'kw': [['b', 'f:1'], ['a', 'i:1']]}),
+                          ({'pos': [], 'kw': [['a', 'N'], ['b', 's:a']]}, {'pos': [], 'kw': [['b', 's:a'], ['a', 'N']]}),
+                          ({'pos': [], 'kw': [['a', 'i:1']]}, {'pos': ['N', 's:a', 'i:1'], 'kw': []}),
                           ({'pos': ['i:1'], 'kw': [['a', 'N']]}, {'pos': ['i:1', 'N', 's:a'], 'kw': []}),
                           ({'pos': ['N', 's:a'], 'kw': []}, {'pos': [], 'kw': [['a', 'N']]})]
                 tid += 1
@@ -72,6 +90,11 @@ def run(prop, tier, seed):
             tid += 1
             tj.append((kind, expire, seed, tid))
     traces += [t for t in pmap(_ttl, tj, procs=10) if t is not None]
+    nj = []
+    for kind in KINDS:
+        tid += 1
+        nj.append((kind, seed, tid))
+    traces += pmap(_names, nj, procs=5)
     tid += 1
     traces += pmap(_stamp, [(seed, tid)], procs=1)
     out.traces = len(traces)
